@@ -378,6 +378,53 @@ def run(repo: Repo, rep, tier: str):
     rep.instance(rid4, "epilogue", {"calls_after_simulator": names4})
     rep.floor(rid4, 1)
 
+    # ------------------------------------------------------------------ other process-wide state
+    rid5 = "C11-R5"
+    rep.rule(rid5, "state that outlives a session without being a module-level cell: (a) a model field declared with a mutable literal "
+                   "default (`Field(default={})`) hands the SAME object to every instance of every session; (b) handlers attached to a "
+                   "`logging.getLogger(...)` logger stay in the logging module's registry - the reset of the logger service must detach "
+                   "them, or later sessions keep writing into the log file of an earlier one; (c) the `hyperparameters` argument must "
+                   "reach a strategy (which may update self.hp) only as a copy")
+    # (a)
+    n5 = 0
+    for rel in sorted({r for r, _ in reach}):
+        for n in ast.walk(repo.module(rel).tree):
+            if isinstance(n, ast.Call) and isinstance(n.func, (ast.Name, ast.Attribute)) and SL.last(dotted(n.func) or "").endswith("Field"):
+                for kw in n.keywords:
+                    if kw.arg == "default" and (isinstance(kw.value, (ast.Dict, ast.List, ast.Set)) or
+                                                (isinstance(kw.value, ast.Call) and isinstance(kw.value.func, ast.Name) and kw.value.func.id in ("dict", "list", "set"))):
+                        rep.violation(rid5, f"{rel}|field-default|{norm(n)[:40]}", f"{rel}: `{norm(n)}` - the mutable default object is shared by every instance (and every session) of the model; "
+                                                                                 f"whatever one order / session stores in it is seen by all later ones")
+                n5 += 1
+    rep.instance(rid5, "model-fields", {"field_declarations_scanned": n5})
+    # (b)
+    lg = repo.module("jesse/services/logger.py")
+    adds = [n for n in ast.walk(lg.tree) if isinstance(n, ast.Call) and isinstance(n.func, ast.Attribute) and n.func.attr == "addHandler"]
+    rs5 = repo.func("jesse/services/logger.py", "reset")
+    detaches = any(isinstance(n, ast.Call) and isinstance(n.func, ast.Attribute) and n.func.attr in ("removeHandler", "clear") and "andler" in norm(n) for n in ast.walk(rs5))
+    if adds and not detaches:
+        rep.violation(rid5, "logger|handlers-not-detached", "jesse/services/logger.py attaches a FileHandler to a process-wide `logging` logger in every session but reset() only forgets the "
+                                                            "logger in LOGGERS: the handler stays attached, so later sessions also write into the log files of earlier ones (and one file "
+                                                            "descriptor leaks per session)")
+    rep.instance(rid5, "logger-handlers", {"addHandler_sites": len(adds), "reset_detaches": detaches})
+    # (c)
+    pr = repo.func("jesse/modes/backtest_mode.py", "_prepare_routes")
+    hp_stores = [n for n in ast.walk(pr) if isinstance(n, ast.Assign) and len(n.targets) == 1 and norm(n.targets[0]).endswith(".hp")]
+    entry_fn = repo.func(*ENTRY)
+    sim_kw = [kw for c in ast.walk(entry_fn) if isinstance(c, ast.Call) and SL.last(dotted(c.func) or "") == "simulator" for kw in c.keywords if kw.arg == "hyperparameters"]
+    copied_at_entry = bool(sim_kw) and all(isinstance(kw.value, ast.Call) and SL.last(dotted(kw.value.func) or "") in ("deepcopy", "copy", "dict") for kw in sim_kw)
+    for st in hp_stores:
+        v = st.value
+        is_copy = isinstance(v, ast.Call) and SL.last(dotted(v.func) or "") in ("deepcopy", "copy", "dict")
+        decoded = isinstance(v, ast.Call) and SL.last(dotted(v.func) or "") == "dna_to_hp"
+        if not (is_copy or decoded or copied_at_entry):
+            rep.violation(rid5, "hyperparameters|aliased", f"_prepare_routes: `{norm(st)}` hands the caller's hyperparameters object to the strategy (and the same object to every route): "
+                                                           f"a strategy that updates self.hp modifies the argument of research.backtest and the other routes")
+    if not hp_stores:
+        raise AnalysisError("_prepare_routes: no store into strategy.hp found")
+    rep.instance(rid5, "hyperparameters", {"stores": [norm(x) for x in hp_stores], "copied_at_entry": copied_at_entry})
+    rep.floor(rid5, 3)
+
     # ------------------------------------------------------------------ arguments unmodified
     rid2 = "C11-R2"
     rep.rule(rid2, "arguments are not mutated: the candle sets handed to the simulator / warm-up injection are deep copies of the "
